@@ -70,6 +70,21 @@ def splitScheme (s : List Char) : Option (List Char × List Char) :=
       | ':' :: rest => some (t.takeWhile ok, rest)
       | _ => none
 
+/-- `s` without the prefix `p`, when it has it (`str::strip_prefix`) -/
+def stripPrefix? : List Char → List Char → Option (List Char)
+  | s, [] => some s
+  | [], _ :: _ => none
+  | c :: s, d :: p => if c == d then stripPrefix? s p else none
+
+/-- `strip_host`: the text after `file:` without its `//localhost` host (only when a `/` follows), else without `//` -/
+def stripHost (s : List Char) : List Char :=
+  match stripPrefix? s "//localhost".toList with
+  | some ('/' :: rest) => '/' :: rest
+  | _ =>
+    match stripPrefix? s "//".toList with
+    | some rest => rest
+    | none => s
+
 /-- split at the last `.` : (before, after); `none` if there is no `.` -/
 def rsplitDot (s : List Char) : Option (List Char × List Char) :=
   let after := (s.reverse.takeWhile (· != '.')).reverse
